@@ -6,6 +6,7 @@ import (
 	"context"
 	"errors"
 	"fmt"
+	"os"
 	"sort"
 	"strings"
 	"sync"
@@ -302,9 +303,12 @@ func (sv *srvInst) listObjects(ctx context.Context, t target, q loQ, ct []scen.T
 	if err != nil {
 		return errClass(err)
 	}
-	os := append([]string{}, resp.GetObjects()...)
-	sort.Strings(os)
-	return "[" + strings.Join(os, " ") + "]"
+	objs := append([]string{}, resp.GetObjects()...)
+	sort.Strings(objs)
+	if os.Getenv("C04_DEBUG") != "" {
+		fmt.Fprintf(os.Stderr, "LO %s store=%s %v ctx=%d hc=%v -> %v\n", sv.name, t.env.StoreID[20:], q, len(ct), t.hc, objs)
+	}
+	return "[" + strings.Join(objs, " ") + "]"
 }
 
 func userString(u *openfgav1.User) string {
@@ -511,6 +515,9 @@ func runAPICase(ctx context.Context, w *rec.Writer, fm *farm, s *scen.Scenario, 
 	rec.Shuffle(r, perm)
 	cuts := []int{0, r.Intn(len(perm) + 1), r.Intn(len(perm) + 1), len(perm)}
 	sort.Ints(cuts)
+	if len(pinnedPerm) == len(perm) && len(pinnedCuts) == levels && pinnedCuts[levels-1] == len(perm) {
+		perm, cuts = append([]int{}, pinnedPerm...), append([]int{}, pinnedCuts...)
+	}
 	level := make([]map[int]bool, levels) // level j: indices of the valid tuples that are stored
 	for j := 0; j < levels; j++ {
 		level[j] = map[int]bool{}
@@ -604,14 +611,43 @@ func runAPICase(ctx context.Context, w *rec.Writer, fm *farm, s *scen.Scenario, 
 	var lus []luQ
 	var exs []exQ
 	seenLO, seenLU, seenEX := map[loQ]bool{}, map[luQ]bool{}, map[exQ]bool{}
-	for _, q := range append(append([]checkQ{}, checks...), cand...) {
-		ot, _ := scen.SplitObj(q.Obj)
-		if l := (loQ{ot, q.Rel, q.User}); !seenLO[l] && len(los) < 4 {
+	// ListObjects queries: relations defined through intersection / exclusion first (their candidates
+	// are re-checked), one typed-wildcard user, then the queries of the sampled checks
+	hasSetOp := func(typ, rel string) bool {
+		rd := s.Rel(typ, rel)
+		found := false
+		if rd != nil {
+			rd.RW.Walk(func(x *scen.Rewrite) {
+				if x.Op == "inter" || x.Op == "diff" {
+					found = true
+				}
+			})
+		}
+		return found
+	}
+	addLO := func(l loQ, limit int) {
+		if !seenLO[l] && len(los) < limit {
 			seenLO[l] = true
 			los = append(los, l)
 		}
-		ut, uid, urel := scen.SplitUser(q.User)
-		_ = uid
+	}
+	nlo := 6
+	all := append(append([]checkQ{}, checks...), cand...)
+	for _, q := range all {
+		if ot, _ := scen.SplitObj(q.Obj); hasSetOp(ot, q.Rel) && !strings.HasSuffix(q.User, ":*") && !strings.Contains(q.User, "#") {
+			addLO(loQ{ot, q.Rel, q.User}, 2)
+		}
+	}
+	for _, q := range all {
+		if strings.HasSuffix(q.User, ":*") {
+			ot, _ := scen.SplitObj(q.Obj)
+			addLO(loQ{ot, q.Rel, q.User}, 3)
+		}
+	}
+	for _, q := range all {
+		ot, _ := scen.SplitObj(q.Obj)
+		addLO(loQ{ot, q.Rel, q.User}, nlo)
+		ut, _, urel := scen.SplitUser(q.User)
 		if l := (luQ{q.Obj, q.Rel, ut, urel}); !seenLU[l] && len(lus) < 4 {
 			seenLU[l] = true
 			lus = append(lus, l)
@@ -621,6 +657,7 @@ func runAPICase(ctx context.Context, w *rec.Writer, fm *farm, s *scen.Scenario, 
 			exs = append(exs, l)
 		}
 	}
+	w.Stat("listobjects_queries", len(los))
 
 	// ---- probes
 	var probes []probe
@@ -873,7 +910,7 @@ func runAPICase(ctx context.Context, w *rec.Writer, fm *farm, s *scen.Scenario, 
 		mvs = append(mvs, rec.L(rec.I(mi), rec.I(api), rec.I(eng), rec.I(kind), rec.I(outcomeInt(m.Got)), rec.I(outcomeInt(m.Want)),
 			rec.LI(m.ctxIdx), rec.L(avs...)))
 	}
-	d := map[string]any{"kind": "api", "seed": seed, "scenario": s, "text": s.String(), "cuts": cuts}
+	d := map[string]any{"kind": "api", "seed": seed, "scenario": s, "text": s.String(), "cuts": cuts, "perm": perm}
 	if len(wgRejects) > 0 {
 		d["refused_by_weighted_graph_validation"] = wgRejects
 	}
